@@ -55,13 +55,16 @@ func (r *Router) route(s Sender, p stanza.Packet) {
 	}
 	iq, isIq := p.(*stanza.IQ)
 	if isIq {
-		r.IQResultRouteLock.RLock()
+		// Look the route up and unregister it in one critical section, so that a given pending
+		// request is taken by one response only (the result channel is buffered: delivering
+		// never blocks, even if the requester is gone).
+		r.IQResultRouteLock.Lock()
 		route, ok := r.IQResultRoutes[iq.Id]
-		r.IQResultRouteLock.RUnlock()
 		if ok {
-			r.IQResultRouteLock.Lock()
 			delete(r.IQResultRoutes, iq.Id)
-			r.IQResultRouteLock.Unlock()
+		}
+		r.IQResultRouteLock.Unlock()
+		if ok {
 			route.result <- *iq
 			close(route.result)
 			return
@@ -182,7 +185,7 @@ type IQResultRoute struct {
 func NewIQResultRoute(ctx context.Context) *IQResultRoute {
 	return &IQResultRoute{
 		context: ctx,
-		result:  make(chan stanza.IQ),
+		result:  make(chan stanza.IQ, 1),
 	}
 }
 
